@@ -17,7 +17,9 @@
    that is coded (it only knows the `creating` and `implementing` sets), so that an update the revert does not
    undo is a difference between the state before and after a failed operation. Known differences (all carried
    by the model, see Properties_C09_ctx.v for the witnesses):
-     - lys_parse_in clears LYS_MOD_LATEST_REV of the previous latest revision before later failure points;
+     - (fixed by /repo commit 21681e3: lys_parse_in clears LYS_MOD_LATEST_REV of the previous latest revision
+       before later failure points; the revert now gives the flag to the newest remaining revision. What is left:
+       LYS_MOD_LATEST_SEARCHDIRS is not given back, and the assert of lys_parse_load after a nested failed parse)
      - lys_set_features flips feature bits in place (already implemented module, or a module that is being
        implemented) and nothing restores them; the to_compile mark also stays;
      - with LY_CTX_EXPLICIT_COMPILE `creating`/`implementing` accumulate over calls, so a failed call also
@@ -580,14 +582,38 @@ Fixpoint rm_from_depsets (k : key) (dss : list (list key)) : list (list key) :=
   | ds :: rest => if kmem k ds then rm_key k ds :: rest else ds :: rm_from_depsets k rest
   end.
 
+(* the newest revision of a name among the modules: the loop of lys_unres_glob_revert (since /repo commit 21681e3)
+   that finds the module the latest-revision flag is given back to *)
+Definition newest (name : N) (l : list modl) : option modl :=
+  fold_left (fun acc m =>
+               if m_name m =? name then
+                 match acc with
+                 | None => Some m
+                 | Some a => if negb (m_rev m =? 0) && ((m_rev a =? 0) || (m_rev a <? m_rev m)) then Some m else Some a
+                 end
+               else acc) l None.
+
+(* one created module: ly_set_rm from ctx->list; if it carries LYS_MOD_LATEST_REV (lys_parse_in took it from the
+   previous latest revision) the flag goes to the newest revision of the name that is still in the list; the
+   module is removed from the dep sets *)
+Definition rm_step (a : state * list (list key)) (k : key) : state * list (list key) :=
+  let l := mods (fst a) in
+  let flagged := match find_mod k l with Some m => m_latest m | None => false end in
+  let l1 := rm_mod k l in
+  let l2 := if flagged then
+              match newest (fst k) l1 with
+              | Some ml => upd (mkey ml) (set_latest true) l1
+              | None => l1
+              end
+            else l1 in
+  (with_mods l2 (fst a), rm_from_depsets k (snd a)).
+
 Definition revert (s : state) (dss : list (list key)) : state :=
   (* make the implementing modules non-implemented again *)
   let s1 := fold_left (fun s k => upd_s k (fun m => set_tc false (set_comp None (set_impl false m))) s)
                       (implementing s) s in
   (* remove the created modules from the context and from the dep sets *)
-  let '(s2, dss2) := fold_left (fun (a : state * list (list key)) k =>
-                                  (with_mods (rm_mod k (mods (fst a))) (fst a), rm_from_depsets k (snd a)))
-                               (creating s1) (s1, dss) in
+  let '(s2, dss2) := fold_left rm_step (creating s1) (s1, dss) in
   (* recompile the previous context with the current to_compile flags; a failure is only logged *)
   match implementing s2 with
   | [] => s2
@@ -779,13 +805,12 @@ Definition is_nil {A} (l : list A) : bool := match l with [] => true | _ => fals
 Definition quiescent (s : state) : bool :=
   nodupb (keys (mods s)) && forallb (mod_ok (mods s)) (mods s) && is_nil (creating s) && is_nil (implementing s).
 
-(* the hypotheses about the failing operation: at the point where it jumps to its cleanup, every module that
-   existed before still has its LYS_MOD_LATEST_REV bit / its feature bits *)
+(* the hypothesis about the failing operation: at the point where it jumps to its cleanup, every module that
+   existed before still has its feature bits *)
 Definition keeps (p : modl -> modl -> bool) (R : repo) (s : state) (o : op) : bool :=
   forallb (fun m => match find_mod (mkey m) (mods (step_mid R s o)) with
                     | Some m' => p m m'
                     | None => false
                     end) (mods s).
-Definition keeps_latest : repo -> state -> op -> bool := keeps (fun m m' => Bool.eqb (m_latest m') (m_latest m)).
 Definition keeps_features : repo -> state -> op -> bool := keeps (fun m m' => feats_eqb (m_feats m') (m_feats m)).
 
